@@ -113,7 +113,7 @@ Lemma esymbol_type lx : symbol_type eregs lx = Symbol.
 Proof.
   unfold symbol_type. destruct (registered eregs lx) eqn:E; [|reflexivity].
   destruct (last_type_in eregs lx) as [H|H].
-  - exfalso. exact (last_type_known eregs lx (proj1 (valid_regb_ok _ expr_regs_ok)) E H).
+  - exfalso. exact (last_type_known eregs lx (valid_regb_known _ expr_regs_ok) E H).
   - cbn in H. repeat (destruct H as [H|H]; [symmetry; exact H|]). contradiction.
 Qed.
 
